@@ -209,10 +209,14 @@ fault("C15.glr-for-shifter-not-reset", "C15", G, "        self._last_shifted_hea
 fault("C15.glr-accepted-not-reset", "C15", G, "        # Accepted (finished) heads\n        self._accepted_heads = []\n", "", "R15.reinit")
 fault("C15.flag-to-init", "C15", G, "        self.errors = []\n        self._in_error_reporting = False\n", "        self.errors = []\n", "R15.reinit")
 fault("C15.enter-no-per-symbol", "C15", G, "        self._active_heads_per_symbol = {}\n        for head in farthest_heads:", "        for head in farthest_heads:", "R15.reinit")
-fault("C15.no-restore", "C15", T, "    grammar.productions[0].rhs = _old_start_production_rhs\n", "", None)
-fault("C15.restore-conditional", "C15", T, "    grammar.productions[0].rhs = _old_start_production_rhs\n", "    if itemset_type is LR_1:\n        grammar.productions[0].rhs = _old_start_production_rhs\n", "R15.swap-restore")
-fault("C15.raise-between", "C15", T, "    state_queue = [s]\n    state_id = 1\n", "    state_queue = [s]\n    state_id = 1\n    if not grammar.productions[0].rhs:\n        raise GrammarError(location=None, message='empty')\n", "R15.swap-restore")
-fault("C15.inplace-swap", "C15", T, "    grammar.productions[0].rhs = ProductionRHS([start_prod_symbol, STOP])", "    grammar.productions[0].rhs[:] = ProductionRHS([start_prod_symbol, STOP])", None)
+# since D21 behaviour preserving
+benign("C15.b-no-restore", "C15", T, "    grammar.productions[0].rhs = _old_start_production_rhs\n", "")
+# since D21 every build re-points the augmented production first: behaviour preserving
+benign("C15.b-restore-conditional", "C15", T, "    grammar.productions[0].rhs = _old_start_production_rhs\n", "    if itemset_type is LR_1:\n        grammar.productions[0].rhs = _old_start_production_rhs\n")
+# since D21 every build re-points the augmented production first: behaviour preserving
+benign("C15.b-raise-between", "C15", T, "    state_queue = [s]\n    state_id = 1\n", "    state_queue = [s]\n    state_id = 1\n    if not grammar.productions[0].rhs:\n        raise GrammarError(location=None, message='empty')\n")
+# since D21 behaviour preserving
+benign("C15.b-inplace-swap", "C15", T, "    grammar.productions[0].rhs = ProductionRHS([start_prod_symbol, STOP])", "    grammar.productions[0].rhs[:] = ProductionRHS([start_prod_symbol, STOP])")
 fault("C15.cache-follow", "C15", T, "    if first_sets is None:\n        first_sets = first(grammar)\n\n    follow_sets = {}",
       "    if first_sets is None:\n        first_sets = first(grammar)\n    if hasattr(grammar, '_follow_sets'):\n        return grammar._follow_sets\n\n    follow_sets = {}", None,
       edits=[("    if first_sets is None:\n        first_sets = first(grammar)\n\n    follow_sets = {}",
@@ -259,7 +263,7 @@ fault("C08.reduce-layout-last", "C08", P, "layout_content=start_reduction_head.l
 fault("C08.shift-end-value-len", "C08", P, "new_position = head.position + len(head.token_ahead)", "new_position = head.position + len(head.token_ahead.value)", None)
 fault("C08.start-no-span", "C08", P, "            extra,\n            start_position=position,\n            end_position=position,\n        )", "            extra,\n        )", None)
 fault("C08.glr-shift-layout", "C08", G, "                    layout_content=head.layout_content_ahead,\n                    debug=self.debug,\n                )\n                parent = Parent(", "                    layout_content=head.layout_content,\n                    debug=self.debug,\n                )\n                parent = Parent(", "R08.roles-glr")
-fault("C08.glr-reduce-end", "C08", G, "                            parent.start_position,\n                            last_parent.end_position,", "                            parent.start_position,\n                            parent.end_position,", "R08.roles-glr")
+fault("C08.glr-reduce-end", "C08", G, "                            parent.start_position,\n                            path_last_parent.end_position,", "                            parent.start_position,\n                            parent.end_position,", "R08.roles-glr")
 fault("C08.glr-fork-no-layout-ahead", "C08", G, "                layout_content_ahead=self.layout_content_ahead,\n                debug=self.debug,\n            )\n            new_head.parents", "                debug=self.debug,\n            )\n            new_head.parents", "R08.roles-glr")
 fault("C08.glr-fork-token-pos", "C08", G, "                self.state,\n                self.position,\n                self.frontier,\n                self.extra,\n                token_ahead=token,", "                self.state,\n                token.position,\n                self.frontier,\n                self.extra,\n                token_ahead=token,", "R08.roles-glr")
 fault("C08.skipws-order", "C08", P, "                layout_content_ahead = input_str[head.position : pos]\n                head.position = pos", "                head.position = pos\n                layout_content_ahead = input_str[head.position : pos]", "R08.layout-slice")
@@ -489,7 +493,7 @@ fault("C02.reduce-untraversed", "C02", G, "                    elif traversed:\n
 fault("C02.new-head-not-queued", "C02", G, "            self._for_actor.append(new_head)\n            self._active_heads[new_head.state.state_id] = new_head", "            self._active_heads[new_head.state.state_id] = new_head", "R02.link-no-drop")
 fault("C02.merge-replace", "C02", G, "        self.possibilities.extend(other.possibilities)\n        self._solutions = None", "        self.possibilities = list(other.possibilities)\n        self._solutions = None", "R17.forest-root")
 fault("C02.length-twice", "C02", G, "                length = length - 1\n", "                length = length - 1\n                if length > 1:\n                    length = length - 1\n", None)
-benign("C02.b-invert-if", "C02", G, "                    if last_parent is None:\n                        last_parent = parent\n", "                    if not (last_parent is not None):\n                        last_parent = parent\n")
+benign("C02.b-invert-if", "C02", G, "                    path_last_parent = parent if last_parent is None else last_parent\n", "                    if last_parent is None:\n                        path_last_parent = parent\n                    else:\n                        path_last_parent = last_parent\n")
 
 # ---------------------------------------------------------------- C01
 fault("C01.sort-len", "C01", G, "self._for_shifter.sort(key=lambda x: x[0].token_ahead.end_position, reverse=True)", "self._for_shifter.sort(key=lambda x: len(x[0].token_ahead), reverse=True)", "R01.shift-order")
@@ -509,3 +513,77 @@ fault("C01.follow-first-occurrence", "C01", T, "                            addi
 # tools/benign_rename.py renames every function-local variable of the package (368 names) and
 # regenerates the source with ast.unparse; all 20 checks must stay silent on it (run by
 # `pgv.py selfcheck --rename`, part of every thorough run of C15).
+
+# ---------------------------------------------------------------- added after the blind wave (wave 2)
+fault("C06.prior-skip-default", "C06", GR, '            meta_datas["priority"] = meta_data\n',
+      '            if meta_data != DEFAULT_PRIORITY:\n                meta_datas["priority"] = meta_data\n', "R06.meta-map")
+benign("C06.b-prior-guard-noop", "C06", GR, '            meta_datas["priority"] = meta_data\n',
+       '            if meta_data is not None:\n                meta_datas["priority"] = meta_data\n            else:\n                meta_datas["priority"] = meta_data\n')
+fault("C06.group-no-rule-meta", "C06", GR, "_create_prods(context, gprods, gname, rule_meta_datas)", "_create_prods(context, gprods, gname, {})", "R13.groups")
+fault("C13.empty-by-symbol", "C13", T, "is_empty = len(prod.rhs) == 0", "is_empty = EMPTY in prod.rhs", "R06.table")
+benign("C13.b-empty-not", "C13", T, "is_empty = len(prod.rhs) == 0", "is_empty = not len(prod.rhs)")
+fault("C03.len-self", "C03", TR, "        if not 0 <= idx < self.solutions:", "        if not 0 <= idx < len(self):", "R03.bounds")
+fault("C03.traversed-hoisted", "C03", G,
+      "            while self._active_heads_per_symbol:\n                _, self._active_heads = self._active_heads_per_symbol.popitem()\n                self._for_actor = list(self._active_heads.values())\n                # Used to optimize revisiting only heads that will\n                # traverse newly added paths.\n                # state_id -> set(state_id)\n                self._states_traversed = {}\n",
+      "            self._states_traversed = {}\n            while self._active_heads_per_symbol:\n                _, self._active_heads = self._active_heads_per_symbol.popitem()\n                self._for_actor = list(self._active_heads.values())\n",
+      "R02.revisit")
+fault("C05.follow-before-swap", "C05", T,
+      "    _old_start_production_rhs = grammar.productions[0].rhs\n    start_prod_symbol = grammar.productions[start_production].symbol\n    grammar.productions[0].rhs = ProductionRHS([start_prod_symbol, STOP])\n\n    follow_sets = follow(grammar, first_sets)\n",
+      "    follow_sets = follow(grammar, first_sets)\n\n    _old_start_production_rhs = grammar.productions[0].rhs\n    start_prod_symbol = grammar.productions[start_production].symbol\n    grammar.productions[0].rhs = ProductionRHS([start_prod_symbol, STOP])\n",
+      "R15.swap-restore")
+# since D21 every build re-points the augmented production first: behaviour preserving
+benign("C05.b-swap-in-place", "C05", T, "    grammar.productions[0].rhs = ProductionRHS([start_prod_symbol, STOP])\n", "    grammar.productions[0].rhs[0] = start_prod_symbol\n")
+# since D21 every build re-points the augmented production first: behaviour preserving
+benign("C14.b-no-restore", "C14", T, "    grammar.productions[0].rhs = _old_start_production_rhs\n", "")
+fault("C14.reduce-layout-ahead-of-first", "C14", P,
+      "                        layout_content=start_reduction_head.layout_content,\n                        layout_content_ahead=head.layout_content_ahead,",
+      "                        layout_content=start_reduction_head.layout_content,\n                        layout_content_ahead=start_reduction_head.layout_content_ahead,", "R08.roles-lr")
+fault("C15.pop-override", "C15", GR, "action = action_overrides.get(symbol.fqn, None)", "action = action_overrides.pop(symbol.fqn, None)", "R15.args-pure")
+benign("C15.b-get-default", "C15", GR, "action = action_overrides.get(symbol.fqn, None)", "action = action_overrides.get(symbol.fqn)")
+fault("C15.mem-table-cache", "C15", T, "    if table is None:\n        table = create_table(",
+      "    mem = vars(grammar).setdefault(\"_tables\", {})\n    if table is None and not table_file_name:\n        table = mem.get((itemset_type, start_production))\n    if table is None:\n        mem[(itemset_type, start_production)] = table = create_table(", "R15.shared-writes")
+fault("C15.marker-del-in-helper", "C15", P, "            self.clear_transient = True\n\n            return compiled_examples\n",
+      "            self.clear_transient = True\n            del self._in_error_hints\n\n            return compiled_examples\n", "R15.markers",
+      edits=[("            self.clear_transient = True\n\n            return compiled_examples\n", "            self.clear_transient = True\n            del self._in_error_hints\n\n            return compiled_examples\n"),
+             ("        del self._in_error_hints\n        return compiled_hints", "        return compiled_hints")])
+fault("C16.conflicts-before-sort", "C16", T, "        self.states = states\n        if calc_finish_flags:\n", "        self.states = states\n        self.calc_conflicts_and_dynamic_terminals(debug)\n        if calc_finish_flags:\n", "R16.sanitiser",
+      edits=[("        self.states = states\n        if calc_finish_flags:\n", "        self.states = states\n        self.calc_conflicts_and_dynamic_terminals(debug)\n        if calc_finish_flags:\n"),
+             ("                )\n        self.calc_conflicts_and_dynamic_terminals(debug)\n", "                )\n")])
+fault("C17.custom-replaces-list", "C17", P, "                    tokens.extend(custom_tokens)\n", "                    tokens = list(custom_tokens)\n", "R17.stop-offer")
+fault("C17.scan-into-callers-list", "C17", P, "                tokens.extend(self._token_recognition(head))\n", "                self._token_recognition(head, tokens)\n", "R17.stop-offer",
+      edits=[("                tokens.extend(self._token_recognition(head))\n", "                self._token_recognition(head, tokens)\n"),
+             ("    def _token_recognition(self, head):\n", "    def _token_recognition(self, head, tokens=None):\n"),
+             ("        tokens = []\n        last_prior = -1\n", "        if tokens is None:\n            tokens = []\n        last_prior = -1\n")])
+fault("C08.sibling-last-parent", "C08", G, "                    path_last_parent = parent if last_parent is None else last_parent\n",
+      "                    if last_parent is None:\n                        last_parent = parent\n                    path_last_parent = last_parent\n", "R08.roles-glr")
+fault("C08.end-of-current-link", "C08", G, "                            path_last_parent.end_position,\n", "                            parent.end_position,\n", "R08.roles-glr")
+benign("C08.b-first-link-flipped", "C08", G, "                    path_last_parent = parent if last_parent is None else last_parent\n",
+       "                    path_last_parent = last_parent if last_parent is not None else parent\n")
+fault("C18.debug-overwrites-filter-args", "C18", P,
+      "                production_str = f\", prod={context.production}\"\n                subresults_str = f\", subresults={subresults}\"\n",
+      "                production_str = production = f\", prod={context.production}\"\n                subresults_str = subresults = f\", subresults={subresults}\"\n", "R00.debug-pure")
+fault("C08.debug-escapes-layout", "C08", P,
+      "            content = layout_content_ahead\n            if isinstance(layout_content_ahead, str):\n                content = content.replace(\"\\n\", \"\\\\n\")\n",
+      "            content = layout_content_ahead\n            if isinstance(layout_content_ahead, str):\n                content = layout_content_ahead = content.replace(\"\\n\", \"\\\\n\")\n", "R00.debug-pure")
+benign("C08.b-debug-extra-local", "C08", P,
+       "            content = layout_content_ahead\n            if isinstance(layout_content_ahead, str):\n",
+       "            content = layout_content_ahead\n            shown = len(content or \"\")\n            if isinstance(layout_content_ahead, str) and shown >= 0:\n")
+fault("C02.gss-id-no-separator", "C02", G, '        self.id = f"{frontier}_{state.state_id}"', '        self.id = f"{frontier}{state.state_id}"', "R02.link-key")
+fault("C02.gss-id-digit-separator", "C02", G, '        self.id = f"{frontier}_{state.state_id}"', '        self.id = f"{frontier}0{state.state_id}"', "R02.link-key")
+benign("C02.b-gss-id-colon", "C02", G, '        self.id = f"{frontier}_{state.state_id}"', '        self.id = f"{frontier}:{state.state_id}"')
+fault("C02.revisit-set-narrowed", "C02", G, "                if to_revisit:\n                    if self.debug:\n",
+      "                if root_head is head and active_head is not head:\n                    to_revisit.discard(head.state.state_id)\n                if to_revisit:\n                    if self.debug:\n", "R02.revisit")
+benign("C08.b-first-link-ifelse", "C08", G, "                    path_last_parent = parent if last_parent is None else last_parent\n", "                    if last_parent is None:\n                        path_last_parent = parent\n                    else:\n                        path_last_parent = last_parent\n")
+fault("C10.context-interval-le", "C10", "parglare/exceptions.py", "        if current_pos <= pos < current_pos + len(line):", "        if current_pos <= pos <= current_pos + len(line):", "R10.context-line")
+benign("C10.b-context-interval-and", "C10", "parglare/exceptions.py", "        if current_pos <= pos < current_pos + len(line):", "        if pos >= current_pos and not pos >= current_pos + len(line):")
+fault("C10.no-revisit-in-error-mode", "C10", G, "            if created and state.state_id in self._states_traversed:", "            if created and not self._in_error_reporting and state.state_id in self._states_traversed:", "R02.revisit")
+benign("C10.b-revisit-guard-nested", "C10", G, "            if created and state.state_id in self._states_traversed:\n                to_revisit = self._states_traversed[state.state_id].intersection(\n                    self._active_heads.keys()\n                ) - set(h.state.state_id for h in self._for_actor)\n",
+       "            if state.state_id in self._states_traversed and created:\n                to_revisit = self._states_traversed[state.state_id].intersection(\n                    self._active_heads.keys()\n                ) - set(h.state.state_id for h in self._for_actor)\n")
+fault("C11.recovery-scan-current-first", "C11", P,
+      "        while head.position < len(head.input_str):\n            head.position += 1\n            token = self._next_token(head)\n            if token:\n                head.token_ahead = token\n                return True\n        return False\n",
+      "        while True:\n            token = self._next_token(head)\n            if token:\n                head.token_ahead = token\n                return True\n            if head.position >= len(head.input_str):\n                return False\n            head.position += 1\n", "R11.progress")
+benign("C11.b-recovery-while-true", "C11", P,
+       "        while head.position < len(head.input_str):\n            head.position += 1\n            token = self._next_token(head)\n            if token:\n                head.token_ahead = token\n                return True\n        return False\n",
+       "        while True:\n            if head.position >= len(head.input_str):\n                return False\n            head.position += 1\n            token = self._next_token(head)\n            if token:\n                head.token_ahead = token\n                return True\n")
+fault("C11.snapshot-after-shifts", "C11", G, "            if not self._in_error_reporting:\n                self._last_shifted_heads = list(self._active_heads.values())\n                self._find_lookaheads()\n",
+      "            if not self._in_error_reporting:\n                self._find_lookaheads()\n", "R10.errors-are-syntax-errors")
